@@ -37,7 +37,7 @@ type tmHandler struct {
 	payload string
 }
 
-var tmDelays = []time.Duration{time.Millisecond, 5 * time.Millisecond, 20 * time.Millisecond, time.Second, time.Hour}
+var tmDelays = []time.Duration{time.Millisecond, 5 * time.Millisecond, 20 * time.Millisecond, time.Second, time.Hour, 0, -time.Millisecond} // (also due at once, and overdue)
 var tmSleeps = []time.Duration{time.Millisecond, 4 * time.Millisecond, 20 * time.Millisecond, 500 * time.Millisecond, time.Second}
 
 func runC17McrewTimers(c *sim.Ctx, t *testing.T) {
